@@ -1,0 +1,32 @@
+//go:build verif
+
+package fundraising
+
+// Contracts for the verification machinery in /verif (govc). Comment-only file, compiled only with -tags verif.
+// Syntax: /verif/DESIGN.md section 5. Spec macros (Inv, genesisValid, ...) live in /verif/contracts/*.spec.
+
+// ExportGenesis (C15): each list is the complete ordered listing of its collection, the parameters are the stored ones,
+// and the result passes GenesisState.Validate (stated with the validator's exact acceptance predicate genesisValid).
+// State the genesis format has no field for must be at its default, otherwise a re-import cannot restore it.
+//@ func ExportGenesis
+//@ requires Inv() && InvVQ() && InvAllowedKey() && InvParams() && InvAuctionsDense()
+//@ modifies
+//@ ensures [C15] parameters-exported: result1 == nil ==> result0.Params.AuctionCreationFee == Params.AuctionCreationFee && result0.Params.PlaceBidFee == Params.PlaceBidFee
+//@ ensures [C15] allow-list-entries-are-stored-entries: result1 == nil ==> len(result0.AllowedBidderList) == walkN0 && forall(j, int, 0 <= j && j < walkN0 ==> let(e, result0.AllowedBidderList[j], AllowedBidder[e.AuctionId][addrOf(e.Bidder)].present && AllowedBidder[e.AuctionId][addrOf(e.Bidder)] == e))
+//@ ensures [C15] every-allow-list-entry-exported-once: result1 == nil ==> forall(a, uint64, forall(ad, Addr, AllowedBidder[a][ad].present ==> 0 <= walkPos0(a, ad) && walkPos0(a, ad) < len(result0.AllowedBidderList) && result0.AllowedBidderList[walkPos0(a, ad)] == AllowedBidder[a][ad]))
+//@ ensures [C15] instalments-are-stored-instalments: result1 == nil ==> len(result0.VestingQueueList) == walkN1 && forall(j, int, 0 <= j && j < walkN1 ==> let(e, result0.VestingQueueList[j], VestingQueue[e.AuctionId][e.ReleaseTime].present && VestingQueue[e.AuctionId][e.ReleaseTime] == e))
+//@ ensures [C15] every-instalment-exported-once: result1 == nil ==> forall(a, uint64, forall(t, Time, VestingQueue[a][t].present ==> 0 <= walkPos1(a, t) && walkPos1(a, t) < len(result0.VestingQueueList) && result0.VestingQueueList[walkPos1(a, t)] == VestingQueue[a][t]))
+//@ ensures [C15] bids-are-stored-bids: result1 == nil ==> len(result0.BidList) == walkN2 && forall(j, int, 0 <= j && j < walkN2 ==> let(e, result0.BidList[j], Bid[e.AuctionId][e.Id].present && Bid[e.AuctionId][e.Id] == e))
+//@ ensures [C15] every-bid-exported-once: result1 == nil ==> forall(a, uint64, forall(i, uint64, Bid[a][i].present ==> 0 <= walkPos2(a, i) && walkPos2(a, i) < len(result0.BidList) && result0.BidList[walkPos2(a, i)] == Bid[a][i]))
+//@ ensures [C15] bids-of-an-auction-in-id-order: result1 == nil ==> forall(i, int, forall(j, int, 0 <= i && i < j && j < len(result0.BidList) ==> result0.BidList[i].AuctionId <= result0.BidList[j].AuctionId))
+//@ ensures [C15] auctions-exported-in-id-order: result1 == nil ==> len(result0.AuctionList) == AuctionSeq && forall(j, int, 0 <= j && j < len(result0.AuctionList) ==> result0.AuctionList[j] == Auction[j])
+//@ ensures [C15] exported-allow-list-passes-validation: result1 == nil ==> genesisValidAB(result0)
+//@ ensures [C15] exported-instalments-pass-validation: result1 == nil ==> genesisValidVQ(result0)
+//@ ensures [C15] exported-bids-pass-validation: result1 == nil ==> genesisValidBids(result0)
+//@ ensures [C15] exported-auctions-pass-validation: result1 == nil ==> genesisValidAuctions(result0)
+//@ ensures [C15] exported-parameters-pass-validation: result1 == nil ==> paramsValid(result0.Params)
+//@ ensures [C15] state-without-a-genesis-field-is-at-its-default: result1 == nil ==> forall(a, uint64, MatchedBidsLen[a] == 0)
+//@ walk 0 invariant len(genesis.AllowedBidderList) == idx && forall(j, int, 0 <= j && j < idx ==> genesis.AllowedBidderList[j] == walkVal(j))
+//@ walk 1 invariant len(genesis.VestingQueueList) == idx && forall(j, int, 0 <= j && j < idx ==> genesis.VestingQueueList[j] == walkVal(j))
+//@ walk 2 invariant len(genesis.BidList) == idx && forall(j, int, 0 <= j && j < idx ==> genesis.BidList[j] == walkVal(j))
+//@ walk 3 invariant len(genesis.AuctionList) == idx && forall(j, int, 0 <= j && j < idx ==> genesis.AuctionList[j] == walkVal(j))
